@@ -163,7 +163,7 @@ Variable chunker : str -> list str.
 Hypothesis chunker_ok : forall d, chunker d <> [] /\ concat (chunker d) = d.
 
 (* what the next run finds: the tree as the interrupted run left it, and a fresh doer *)
-Definition reboot (s : dstate) : dstate := mkD (d_fs s) (d_anc s) (d_tick s) None [] (mkX None [] 0).
+Definition reboot (s : dstate) : dstate := mkD (d_fs s) (d_anc s) (d_tick s) None [] (mkX None [] 0 []).
 
 (* A damaged file can never pass for an up-to-date one ... *)
 Lemma good_no_damage S D0 s p t b d :
